@@ -111,9 +111,14 @@ pub fn clonerank(size: usize, out: &mut Out) {
                         out.insert(0, &t1, 1);
                         out.insert(0, &t2, 2);
                         out.insert(0, &format!("{pre}{par}(/q)"), 3);
+                        // a group in the middle: its two expansions end in sibling nodes
+                        out.insert(0, &format!("{pre}{par}(-x)-y"), 4);
                         out.op("clone 0 1".to_owned());
                         out.op("clone 1 2".to_owned());
                         let mut battery: Vec<String> = paths.iter().map(|p| format!("{pre}{p}")).collect();
+                        for p in ["a-x-y", "a-y", "c-x-y", "a-x-x-y", "aa-y", "a-0"] {
+                            battery.insert(0, format!("{pre}{p}"));
+                        }
                         for n in 2..=3usize {
                             let mut idx = vec![0usize; n];
                             loop {
@@ -147,6 +152,19 @@ pub fn clonerank(size: usize, out: &mut Out) {
                         for r in 0..3 {
                             out.display(r);
                             for p in &battery {
+                                out.search(r, p);
+                            }
+                        }
+                        // the original moves on (new siblings shift stored positions), the stand-bys are refreshed in place:
+                        // `clone_from` onto routers that share their history with the source
+                        out.insert(0, "/0", 8);
+                        out.insert(0, &format!("{pre}{par}{sep}0"), 9);
+                        out.insert(0, &format!("{pre}{par}-0"), 10);
+                        out.op("clone 0 1".to_owned());
+                        out.op("clone 0 2".to_owned());
+                        for r in 1..3 {
+                            out.display(r);
+                            for p in battery.iter().take(60) {
                                 out.search(r, p);
                             }
                         }
@@ -650,6 +668,27 @@ pub fn parsefocus(max_len: usize, out: &mut Out) {
     for s in ["/{a}/{b}/{a}", "/{a}/{a}/{b}", "/{a}.{b}.{a}", "/{*a}/{b}/{a:u8}", "/{a}/{b}{c}", "/{a}{b}/{c}", "/{a}/{b}/{c}{a}"] {
         out.op(format!("parse {}", hex(s.as_bytes())));
         out.insert(0, s, 1);
+    }
+    // duplicate and touching parameters for every pair of parameter kinds (plain, constrained, wildcard, constrained
+    // wildcard; one- and two-letter names): the reported ranges are computed from the kind of the *earlier* parameter
+    // (twelfth round, C14-g: a constrained wildcard measured one byte short)
+    let kinds = |n: &str| [format!("{{{n}}}"), format!("{{{n}:alpha}}"), format!("{{*{n}}}"), format!("{{*{n}:alpha}}")];
+    for name in ["a", "ab"] {
+        for k1 in kinds(name) {
+            for k2 in kinds(name) {
+                for t in [format!("/{k1}/x/{k2}"), format!("/p{k1}-{k2}/q"), format!("/{k1}(/{k2})"), format!("(/{k1})/y/{k2}/z"), format!("/é{k1}/日/{k2}")] {
+                    out.op(format!("parse {}", hex(t.as_bytes())));
+                    out.insert(0, &t, 1);
+                }
+            }
+            for k2 in kinds("z") {
+                for t in [format!("/{k1}{k2}"), format!("/x/{k1}{k2}/y"), format!("/{k1}(/){k2}"), format!("/é{k1}{k2}日")] {
+                    out.op(format!("parse {}", hex(t.as_bytes())));
+                    out.insert(0, &t, 1);
+                    out.delete(0, &t);
+                }
+            }
+        }
     }
     // every error variant with multi-byte text before, inside and after the indicated range (byte offsets vs characters)
     for s in ["/{é}/{é}", "/日本語/{id}/{id:u32}", "/{é}/{b}/{é}/x", "/é/{a}/{a}", "/{a}/{a}/é", "/é{a}{b}", "/{é}{b}/日", "/{é", "/é}",
